@@ -67,6 +67,7 @@ void Arena::init(size_t bytes)
 
 void Arena::run_begin(size_t skip_pages, size_t sub)
 {
+        t_stack_word = 0;
         run_end();
         sub_off = sub % 64; // 0 in every ordinary run; the address twin shifts all buffers by a few bytes inside their pages
         pos = (skip_pages % 4096) * PG; // every run starts from the arena base plus a plan-chosen displacement
